@@ -19,6 +19,10 @@ def observe(case):
             sys.setrecursionlimit(opts["reclimit"])
         t = instrument.run_traced(text, flags, inputs, online=online, budget=opts.get("budget", 200))
         t["mustfail"] = bool(opts.get("mustfail", False))
+        if "twin" in opts:
+            tw = instrument.run_traced(opts["twin"], flags, inputs, online=online, budget=opts.get("budget", 200))
+            f = tw["ev"][-1]
+            t["twin"] = {"stack": f["stack"], "out": f["out"], "raised": f["raised"]}
         return t
     except BaseException as e:  # noqa: BLE001  harness problem: report as such
         return {"text": common.cps(text), "flags": sorted(set(flags)), "inputs": [],
